@@ -345,6 +345,7 @@ class Image(Traversable):
                 candidate_names[candidate_name] = []
             candidate_names[candidate_name].append(element)
 
+        taken_names = set(candidate_names.keys())
         for name, subelements in candidate_names.items():
             if len(subelements) == 1:
                 element = subelements[0]
@@ -357,11 +358,11 @@ class Image(Traversable):
                 if i > 1:
                     next_name = self._add_count_to_name(name, i)
                     j = 0
-                    while (next_name in candidate_names.keys()):
+                    while (next_name in taken_names):
                         i += 1
                         j += 1
                         next_name = self._add_count_to_name(name, i)
-                        if j > len(candidate_names.keys()):
+                        if j > len(taken_names):
                             # This should never(?) happen
                             raise CouldNotDetermineName(
                                 "Unable to determine proper (sanitized) "
@@ -370,6 +371,7 @@ class Image(Traversable):
                             )
                 else:
                     next_name = name
+                taken_names.add(next_name)
                 f_set(element, next_name)
 
         result = elements
